@@ -70,19 +70,48 @@ def model_theorems(run, models):
         os.remove(path)
 
 
+def xproc_trace(run, shards):
+    """Routes the first WriteTo of every copy of a program (run in different worker processes) into one XProc event per program."""
+    first = {}
+    for sh in shards:
+        prog = None
+        for line in open(sh):
+            if '"ev":"Reset"' in line[:60] or '"ev":"WriteTo"' in line[:200] or '"Reset"' in line or '"WriteTo"' in line:
+                e = json.loads(line)
+                if e.get("ev") == "Reset":
+                    prog = e["prog"]
+                elif e.get("ev") == "WriteTo" and prog is not None and e.get("wkind") == "all":
+                    base = prog.split("#")[0]
+                    if (base, prog) not in first:
+                        first[(base, prog)] = e["accepted"]
+    groups = {}
+    for (base, prog), b in first.items():
+        groups.setdefault(base, []).append(b)
+    path = os.path.join(run.dir, "t.trace.xproc")
+    n = 0
+    with open(path, "w") as f:
+        for base, outs in groups.items():
+            if len(outs) >= 2:
+                f.write(json.dumps({"ev": "Reset", "prog": base, "fam": "xproc"}) + "\n")
+                f.write(json.dumps({"ev": "XProc", "outs": outs}) + "\n")
+                n += 1
+    vlib.log("cross-process comparison: %d programs with 2+ processes" % n)
+    return path
+
+
 REQUIRE = {   # vacuity guard: what a run of the check must have exercised at least this often (exit 2 otherwise)
     "C01": {"roundtrip": 1000, "verdict-accept": 1000}, "C02": {"c02-judged": 1000}, "C03": {"verdict-accept": 1500},
     "C04": {"verdict-reject": 2000, "verdict-either": 2000, "Unmarshal": 500}, "C05": {"verdict-reject": 2000, "Unmarshal": 500},
     "C06": {"Read": 5000, "verdict-either": 100}, "C07": {"read-fragmented": 1000, "memo-compared": 1000},
     "C08": {"read-faulty": 1000}, "C09": {"verdict-reject": 5000}, "C10": {"write-faulty": 5000, "WriteTo": 5000},
-    "C11": {"WriteN": 1000, "Diag": 2000}, "C12": {"Call": 10000}, "C13": {"Conc": 100}, "C14": {"Scribble": 1000, "Unmarshal": 1000},
+    "C11": {"WriteN": 1000, "Diag": 2000, "XProc": 500}, "C12": {"Call": 10000}, "C13": {"Conc": 100}, "C14": {"Scribble": 1000, "Unmarshal": 1000},
     "C15": {"VBIDec": 2000, "VBIEnc": 1000}, "C16": {"Read": 3000}, "C17": {"Diag": 1000, "Filter": 500}, "C18": {"CmpDiag": 300},
     "C19": {"Diag": 10000},
 }
 
 
 def check(run, prop, claims, fams, rule, assumptions, level=LEVEL_MC, keep=None, drive_kw=None, extra_cov=None, models=None,
-          extra_progs=None, randoms=0, histories=0):
+          extra_progs=None, randoms=0, histories=0, xproc=0):
     if models:
         model_theorems(run, models)
     progs = gather(run, fams) + (extra_progs or [])
@@ -93,7 +122,16 @@ def check(run, prop, claims, fams, rule, assumptions, level=LEVEL_MC, keep=None,
     if keep:
         progs = [p for p in progs if keep(p)]
     progs = assign_ids(progs, prop + "-")
-    shards = run.drive(progs, "t", **(drive_kw or {}))
+    copies = []
+    if xproc:      # the same program again in other worker processes; their first encodings are compared by TLC (EvXProc)
+        for pr in progs:
+            if pr.get("fam") == "build" and run.rng.random() < xproc:
+                for r in (1, 2):
+                    cp = dict(pr); cp["id"] = "%s#r%d" % (pr["id"], r); cp["steps"] = [s for s in pr["steps"] if s["op"] in ("New", "Call", "Pub", "WriteTo")][:-1]
+                    copies.append(cp)
+    shards = run.drive(progs + copies, "t", **(drive_kw or {}))
+    if copies:
+        shards = shards + [xproc_trace(run, shards)]
     notes, events = run.validate(shards, "t")
     cov = {"traces_validated_against_impl": len(progs), "programs": len(progs), "events": events,
            "distinct_nontrivial": distinct_classes(progs), "evaluations": len(progs), "rule": rule, "exhaustive": False}
@@ -291,7 +329,8 @@ def c11(run):
     return check(run, "C11", {"C11"}, [("build", TYPE_PARTS)],
                  BUILD_RULE + "every WriteTo of an unchanged model state must give the bytes of the first one (8 repeats in a "
                  "row plus writes before and after String/Dump/WellFormed), and the accessor record must be unchanged by "
-                 "every read-only operation", ["cross-process repetition is covered by the 16 worker processes only in aggregate"])
+                 "every read-only operation; a third of the programs is executed again in two other worker processes (fresh hash seeds) "
+                 "and the first encodings are compared", [], xproc=0.34)
 
 
 def c12(run):
